@@ -393,37 +393,38 @@ harnesses! {
     }
 
     // a failed call while a ramped ratio change is pending must not consume the ramp
-    #[kani::unwind(20)]
+    #[kani::unwind(30)]
     fn c13_ffi_failed_call_ramp_pending(nd) {
-        let mut r = FastFixedIn::<f64>::new(1.0, 2.0, PolynomialDegree::Linear, 3, 1).unwrap();
-        let mut t = FastFixedIn::<f64>::new(1.0, 2.0, PolynomialDegree::Linear, 3, 1).unwrap();
+        let mut r = FastFixedIn::<f64>::new(1.0, 2.0, PolynomialDegree::Linear, 10, 1).unwrap();
+        let mut t = FastFixedIn::<f64>::new(1.0, 2.0, PolynomialDegree::Linear, 10, 1).unwrap();
         check!(r.set_resample_ratio(1.5, true).is_ok() && t.set_resample_ratio(1.5, true).is_ok(), "C12.abs_iff[base]");
-        let mut x = [0.0f64; 3];
+        let mut x = [0.0f64; 10];
         crate::drive::fill_line(&mut x[..], 0);
         let which = nd.bool();
         let no = r.output_frames_next();
-        crate::fit!(nd, no <= 16 && no >= 1, "C13.demand_fits_scenario_bound[base]");
-        let mut z = [SENT; 16];
+        crate::fit!(nd, no <= 24 && no >= 1, "C13.demand_fits_scenario_bound[base]");
+        let mut z = [SENT; 24];
         let e = if which {
-            r.process_into_buffer(&[&x[..2]], &mut [&mut z[..no]], None)            // input one frame short
+            r.process_into_buffer(&[&x[..9]], &mut [&mut z[..no]], None)            // input one frame short
         } else {
             r.process_into_buffer(&[&x[..]], &mut [&mut z[..no - 1]], None)          // output one frame short
         };
         check!(e.is_err(), "C13.err_expected[base]");
         let mut clean = true;
-        unroll32!(i, 16, { if z[i].to_bits() != SENT.to_bits() { clean = false; } });
+        unroll32!(i, 24, { if z[i].to_bits() != SENT.to_bits() { clean = false; } });
         check!(clean, "C13.writes_nothing[base]");
         check!(r.input_frames_next() == t.input_frames_next() && r.output_frames_next() == t.output_frames_next(),
             "C13.getters_unchanged[base]");
-        let mut a = [SENT; 16];
-        let mut b = [SENT; 16];
+        let mut a = [SENT; 24];
+        let mut b = [SENT; 24];
         let ra = r.process_into_buffer(&[&x[..]], &mut [&mut a[..]], None);
         let rb = t.process_into_buffer(&[&x[..]], &mut [&mut b[..]], None);
         check!(matches!((&ra, &rb), (Ok(p), Ok(q)) if p == q), "C13.state_unchanged_counts[base]");
         let mut same = true;
-        unroll32!(i, 16, { if a[i].to_bits() != b[i].to_bits() { same = false; } });
+        unroll32!(i, 24, { if a[i].to_bits() != b[i].to_bits() { same = false; } });
         check!(same, "C13.state_unchanged_output[base]");
         check!(r.output_frames_next() == t.output_frames_next(), "C13.getters_unchanged[base]");
+        cover!(matches!(&ra, Ok((_, n)) if *n > 0), "valid call produced frames");
         cover!(!which, "short output variant");
         forget(r); forget(t);
     }
